@@ -226,6 +226,7 @@ class OpcodeNode(NodeProtocol):
         self.size = size
         self.file_info = file_info
         self.resolver = resolver
+        self.predicted_length: int | None = None
 
     def _get_emitter(self) -> OpcodeProtocol:
         try:
@@ -249,7 +250,16 @@ class OpcodeNode(NodeProtocol):
     def emit(self, current_pc: Address) -> bytes:
         opcode_emitter = self._get_emitter()
         try:
-            return opcode_emitter.emit(self.value_node, self.resolver, self.size)
+            node_bytes = opcode_emitter.emit(self.value_node, self.resolver, self.size)
+            if self.predicted_length is not None and len(node_bytes) != self.predicted_length:
+                # the operand resolved to something else while labels were computed
+                # (e.g. a name shadowed by a label defined later): every following label would be off.
+                raise NodeError(
+                    f"{self.opcode} operand size changed between passes "
+                    f"({self.predicted_length} bytes expected, {len(node_bytes)} emitted); use an explicit size.",
+                    self.file_info,
+                )
+            return node_bytes
         except NoOpcodeForOperandSize as e:
             assert self.value_node is not None
             guessed_size = guess_value_size(self.value_node, self.size)
@@ -265,7 +275,11 @@ class OpcodeNode(NodeProtocol):
 
     def pc_after(self, current_pc: Address) -> Address:
         opcode_emitter = self._get_emitter()
-        return current_pc + opcode_emitter.supposed_length(self.value_node, self.size)
+        length = opcode_emitter.supposed_length(self.value_node, self.size)
+        if self.predicted_length is None:
+            # first traversal = label pass: label values are based on this length
+            self.predicted_length = length
+        return current_pc + length
 
     def __str__(self) -> str:
         return f"OpcodeNode({self.opcode}, {self.addressing_mode}, {self.index}, {self.value_node})"
